@@ -68,62 +68,7 @@ def _retarget(g):
     return rec(g)
 
 
-def _loop_terms(fn, u, roles=None):
-    """canonical terms of a `foreach` update with its loop variables bound to positional markers: (chain, key, value, guard, args)"""
-    bound = dict(roles or {})
-    chain = []
-    for depth, (names, it, shape) in enumerate(u.get('chain', [])):
-        it_t = Canon(fn.module, Scope(None), inline=False, bound=dict(bound)).t(it)
-        if isinstance(shape, ast.Name):
-            bound[shape.id] = ('lvar', depth, 0)
-        else:
-            for j, x in enumerate(shape.elts if isinstance(shape, (ast.Tuple, ast.List)) else []):
-                if isinstance(x, ast.Name):
-                    bound[x.id] = ('lvar', depth, j)
-        while it_t[0] == 'call' and it_t[1] in (('name', 'list'), ('name', 'tuple')) and len(it_t[2]) == 1 and not it_t[3]:
-            it_t = it_t[2][0]      # a snapshot of the iterable visits the same elements in the same order
-        chain.append(it_t)
-    T = lambda e: Canon(fn.module, Scope(None), inline=False, bound=dict(bound)).t(e) if e is not None else None
-    key, val, guard, args, tgt = T(u.get('key')), T(u.get('value')), T(u.get('guard')), [T(a) for a in u.get('args', [])], T(u['target'])
-    # a single loop over a comprehension / map / filter: for t in (f(x) for x in S if g(x)): eff(t)   is   for x in S: if g(x): eff(f(x))
-    flattened = False
-    while len(chain) == 1 and chain[0][0] in ('genexp', 'listcomp') and len(chain[0][2]) == 1:
-        elt, (it, ifs) = chain[0][1], chain[0][2][0]
-        L = ('lvar', 0, 0)
-        cv = ('cvar', 0, 0)
-
-        def rep(t, a, b):
-            if t == a:
-                return b
-            if isinstance(t, tuple):
-                return tuple(rep(x, a, b) for x in t)
-            return t
-        elt_l = rep(elt, cv, L)
-        key, val, tgt = rep(key, L, elt_l), rep(val, L, elt_l), rep(tgt, L, elt_l)
-        args = [rep(a, L, elt_l) for a in args]
-        guard = rep(guard, L, elt_l) if guard is not None else None
-        for g in ifs:
-            gl = rep(g, cv, L)
-            guard = gl if guard is None else ('and', tuple(sorted([guard, gl], key=repr)))
-        chain = [it]
-        flattened = True
-    if flattened:
-        # the element of the flattened loop is only read by position: x[0], x[1] are the positions of an unpacked target
-        L = ('lvar', 0, 0)
-        HOLE = ('lvar?',)
-
-        def pos(t):
-            if isinstance(t, tuple) and len(t) == 3 and t[0] == 'sub' and t[1] == L and isinstance(t[2], tuple) and t[2][0] == 'num' and isinstance(t[2][1], int):
-                return ('lvar', 0, t[2][1])
-            if t == L:
-                return HOLE
-            if isinstance(t, tuple):
-                return tuple(pos(x) for x in t)
-            return t
-        cand = [pos(x) for x in (key, val, guard, tuple(args), tgt)]
-        if not any(HOLE in list(walk_term(c)) for c in cand if c is not None):
-            key, val, guard, args, tgt = cand[0], cand[1], cand[2], list(cand[3]), cand[4]
-    return chain, key, val, guard, args, tgt
+from .common import loop_terms as _loop_terms  # noqa: E402
 
 
 def rare_values(repo, chk):
